@@ -70,8 +70,14 @@ SubMaps(kd) == UNION {[S -> {<<"y">>, <<UP, "x">>, <<"x", "a">>}] : S \in SUBSET
 \* a glob port may also carry a dictionary under '*': its own _path, and per
 \* child a renaming of the declared sub-variables (relative to the child)
 GlobSubMaps(kd) == UNION {[S -> {<<"m">>, <<"n", "a">>}] : S \in SUBSET kd.vs}
+\* "omit": the topology does not mention the port at all; the port is then
+\* wired to the store named after it next to the process (p = <<port name>>,
+\* enforced in Cases), for reading and for writing alike
 Topos(kd) ==
   {[t |-> "path", hasp |-> FALSE, p |-> p, sub |-> <<>>] : p \in RelPaths}
+  \cup (IF kd.k \in {"leaf", "branch", "nested"}
+        THEN {[t |-> "omit", hasp |-> FALSE, p |-> <<n>>, sub |-> <<>>] : n \in {"P", "Q"}}
+        ELSE {})
   \cup (IF kd.k # "glob" THEN {}    \* (glob2 only with plain paths)
         ELSE {[t |-> "gdict", hasp |-> TRUE, p |-> p, sub |-> s] :
                 p \in {<<"x">>, <<UP, "y">>, <<"x", "w">>}, s \in GlobSubMaps(kd)})
@@ -83,7 +89,7 @@ Topos(kd) ==
 
 \* ---- the resolution function
 R(base, tp, v) ==
-  IF tp.t = "path" THEN Norm(base \o tp.p) \o v
+  IF tp.t \in {"path", "omit"} THEN Norm(base \o tp.p) \o v
   ELSE IF tp.t = "gdict" THEN
        \* v = <<child, variable>>
        IF v[2] \in DOMAIN tp.sub
@@ -125,7 +131,7 @@ WellFormed(loc, ports) ==
      \* the node a non-leaf port (or a _path) names is a branch: no variable
      \* may sit at or above it
      /\ \A i \in DOMAIN ports :
-          (ports[i].kd.k # "leaf" /\ (ports[i].tp.t = "path" \/ ports[i].tp.hasp)) =>
+          (ports[i].kd.k # "leaf" /\ (ports[i].tp.t \in {"path", "omit"} \/ ports[i].tp.hasp)) =>
              \A a \in N : ~IsPrefixOf(a, Norm(loc \o ports[i].tp.p))
      /\ \A g \in GlobNodes(loc, ports) :
           \A x \in V : IsPrefixOf(g, x.node) =>
@@ -137,7 +143,8 @@ WellFormed(loc, ports) ==
              Norm(loc \o ports[i].tp.p) # Norm(loc \o ports[j].tp.p)
 
 PortSeqs == UNION {[1..n -> PortSpecs] : n \in 1..MaxPorts}
-Cases == {cs \in [loc : Locs, ports : PortSeqs] : WellFormed(cs.loc, cs.ports)}
+OmitOK(ports) == \A i \in DOMAIN ports : ports[i].tp.t = "omit" => ports[i].tp.p = <<PortNames[i]>>
+Cases == {cs \in [loc : Locs, ports : PortSeqs] : OmitOK(cs.ports) /\ WellFormed(cs.loc, cs.ports)}
 
 -----------------------------------------------------------------------------
 (* abstract run: every node starts with its own value; the process returns  *)
